@@ -4,6 +4,7 @@ from typing import List
 from typing import Optional
 
 from smpl_extract.util.sector import SectorStream
+from smpl_extract.util.stream import SectorReadError
 
 
 class RequestedInvalidSector(Exception): ...
@@ -37,7 +38,13 @@ class FileStream(SectorStream):
             sector_index: int, 
             offset: int
         ):
-        sector  = self.sector_list[sector_index]
+        try:
+            sector  = self.sector_list[sector_index]
+        except IndexError as e:
+            raise SectorReadError(
+                f"Sector {sector_index} lies beyond the "
+                f"{len(self.sector_list)} sectors of the file."
+            ) from e
         result  = super()._get_address_given_sector_index(
             sector,
             offset
